@@ -457,6 +457,37 @@ class Generator:
             return None
         return {"op": "mutate", "t": pt.id, "cols": cols}
 
+    def g_collide_setup(self):
+        """manufacture a numeric-suffix configuration for a later join: the left table gets columns
+        named like suffixed right columns (c1_R, c2_R_1, ...), in every subset"""
+        rng = self.rng
+        pt = self.pick_table(lambda p: not p.m.grouping and len(p.m.visible) <= 12)
+        if pt is None:
+            return None
+        others = [self.m.tables[t] for t in self.tables() if t != pt.id and self.m.tables[t].m.name]
+        if not others:
+            return None
+        R = rng.choice(others).m.name
+        ints = self.addressable(pt, kinds=("int",))
+        if not ints:
+            return None
+        commons = [c for c in ("x", "y", "u", "k", "id", "g", "n", "kn")]
+        rng.shuffle(commons)
+        cols = []
+        for c in commons[: rng.choice([1, 2, 2, 3])]:
+            for sfx in rng.sample(["", "_1", "_2"], rng.choice([1, 1, 2])):
+                name = f"{c}_{R}{sfx}"
+                if name in pt.m.names() or any(name == n for n, _ in cols):
+                    continue
+                a = self.refarg(pt, rng.choice(ints))
+                if a is None:
+                    continue
+                cols.append([name, {"e": "tag", "a": a, "k": self.new_k()}])
+        if not cols:
+            return None
+        self.m.note("collision_setup")
+        return {"op": "mutate", "t": pt.id, "cols": cols}
+
     def g_mutate_w(self):
         st = self.g_mutate(window=True)
         return st
@@ -665,8 +696,14 @@ class Generator:
             how = "inner"
             m.note("join_cross")
         elif kind == "name":
-            names = [n for n in l.m.names() if n in r.m.names() and T[l.m.tok_of_name(n)].kind == "int" and T[l.m.tok_of_name(n)].T == 0]
-            names = [n for n in names if l.m.tok_of_name(n) not in l.m.opaque and r.m.tok_of_name(n) not in r.m.opaque]
+            def name_ok(n):
+                a, b = l.m.tok_of_name(n), r.m.tok_of_name(n)
+                if a is None or b is None or a in l.m.opaque or b in r.m.opaque:
+                    return False
+                ta, tb = T[a], T[b]
+                return ta.kind == tb.kind == "int" and ta.T == tb.T == 0 and ta.c == tb.c and ta.offs == tb.offs and len(ta.offs) == 1
+
+            names = [n for n in l.m.names() if name_ok(n)]
             if not names:
                 return None
             on = [rng.choice(names)]
@@ -718,7 +755,16 @@ class Generator:
                     how = "left"
                 m.note("join_inequality")
             elif kind == "multi":
-                on = [p for p in (mk_eq(), mk_eq(), mk_eqx()) if p]
+                on = []
+                seen_pairs = set()
+                cxm = X.MCtx(m.model, l.m, m.ref_toks, m.expr_recs, right=r.m)
+                for p in (mk_eq(), mk_eq(), mk_eqx()):
+                    # the same equality twice is not generated (polars refuses repeated join keys)
+                    if p:
+                        key = frozenset((cxm.resolve(p["a"]), cxm.resolve(p["b"])))
+                        if key not in seen_pairs:
+                            seen_pairs.add(key)
+                            on.append(p)
                 m.note("join_conjunction")
             if not on:
                 return None
